@@ -958,6 +958,9 @@ class Interp:
             if isinstance(op, ast.NotIn):
                 return (not r) if isinstance(r, bool) else SBool(z3.Not(r))
             return r if isinstance(r, bool) else SBool(r)
+        if type(a).__name__ == "SInstantSeconds" or type(b).__name__ == "SInstantSeconds":
+            from . import dtmodel
+            return dtmodel.compare_instant(self, op, a, b)
         if isinstance(a, SOpaque) or isinstance(b, SOpaque):
             from . import opaque
             return opaque.compare(self, op, a, b)
